@@ -4,8 +4,7 @@
 //! slices borrowed from the old one are still queued.  The read size is taken
 //! from a dry run (arena behaviour is deterministic).
 use crate::codec::*;
-use crate::tiny::{dec_case, enc_case, record, CaseId};
-use mc_core::refcodec;
+use crate::tiny::{dec_case_expect, enc_case, record, stream_for, CaseId};
 use mc_core::*;
 use owning_iovec::OwningIovec;
 
@@ -107,7 +106,7 @@ pub fn arena_fill_family(ctx: &Ctx, rep: &mut Report, unit: &mut usize) {
                 continue;
             }
             let message = shape(kind, msg_len);
-            let enc = refcodec::encode(&message, refcodec::PROD_FIRST, refcodec::PROD_LATER);
+            let enc = stream_for(&message, None);
             for split in [1usize, 200, 700] {
                 let remaining = decoder_remaining_after(&enc[..split]);
                 for leave in 0..=3usize {
@@ -121,11 +120,7 @@ pub fn arena_fill_family(ctx: &Ctx, rep: &mut Report, unit: &mut usize) {
                             rep.transitions += 4;
                             rep.nontrivial += 1;
                             cases += 1;
-                            let verdict = |obs: &mut Obs| match dec_case(&enc, &pieces, None, false, obs) {
-                                Ok(true) => Ok(()),
-                                Ok(false) => Err("rejected the canonical encoding of an input".to_string()),
-                                Err(e) => Err(e),
-                            };
+                            let verdict = |obs: &mut Obs| dec_case_expect(&enc, &pieces, None, false, obs, Some(&message)).map(|_| ());
                             if let Err(e) = verdict(&mut Obs::default()) {
                                 let again = verdict(&mut Obs::default()).is_err();
                                 record(rep, &prop, &CaseId { side: "dec", limits: None, data: &enc, pieces: &pieces, prefill: false }, &e, again);
